@@ -37,6 +37,7 @@ TimeStr(t) ==
     [] t.s = 0 - 1000000000 -> "1938-04-24T22:13:20Z"
     [] t.s = 2147483647 -> "2038-01-19T04:14:07+01:00"
     [] t.s = 1 -> "1970-01-01T00:00:01Z"
+    [] t.s = 1700000040 -> "2023-11-14T22:14Z"       \* (ActivityStreams 2.0 core 2.3: the seconds may be left out)
     [] OTHER -> "2023-11-14T22:13:21Z"
 DurStr(d) == CASE d.s = 5 -> "PT5S" [] d.s = 0 - 5 -> "-PT5S" [] d.s = 3725 -> "PT1H2M5S" [] d.s = 86400 -> "P1D" [] d.s = 0 - 259200 -> "-P3D"
                [] d.s = 90000 -> "P1DT1H" [] d.s = 2419200 -> "P28D" [] d.s = 0 - 2505600 -> "-P29D" [] d.s = 29376000 -> "P340D"
